@@ -34,7 +34,7 @@ FAULT_STATES = ["unbuildable", "unbuildable_real", "notimpl", "flaky"]
 EXCS = {"RuntimeError": RuntimeError, "ValueError": ValueError, "OSError": OSError, "KeyError": KeyError, "MemoryError": MemoryError, "InjectedFault": InjectedFault}
 VIEWS = ["contig", "slice", "step", "transpose", "inner", "expand"]
 CLS = ["rand", "all256", "zeros", "ff", "ramp", "cover", "low2"]
-ATEN = ["add", "eq", "sum", "select", "slice", "reshape", "clone", "to_int32", "cat"]
+ATEN = ["add", "eq", "sum", "select", "slice", "reshape", "clone", "to_int32", "cat", "stack", "eq2", "permute"]
 OPKINDS = ["unpack_bytes", "unpack_packed", "pack", "aten", "detach", "to", "flatten", "noext", "mutate", "refill", "meta"]
 PREFIXES = ["", "w.", "weight._data.", "m.0.weight._data."]
 FALLBACK = "Falling back to default implementation"
@@ -228,6 +228,12 @@ def apply_aten(x, a, other):
         return x.to(torch.int32)
     if fn == "cat":
         return torch.cat([x, other] if a.get("first", True) else [other, x], a.get("dim", 0))
+    if fn == "stack":
+        return torch.stack([x, other] if a.get("first", True) else [other, x], a.get("dim", 0))
+    if fn == "eq2":
+        return x == other
+    if fn == "permute":
+        return x.permute(*a["perm"]).contiguous()
     raise KeyError(fn)
 
 
@@ -740,7 +746,7 @@ class World:
         if e is None or op.get("fn") not in ATEN:
             return "skipped"
         other_p = other_t = None
-        if op["fn"] == "cat":
+        if op["fn"] in ("cat", "stack", "eq2"):
             o = self.pool.get(op.get("other")) if op.get("other") else e
             if o is None:
                 return "skipped"
@@ -1082,6 +1088,13 @@ class Planner:
             op.update(dim=neg(dim), a=a, n=r.randint(0, shape[dim] - a))
         elif fn == "reshape":
             op["shape"] = r.choice([[-1], [shape[0], -1], [-1, shape[0]], list(reversed(shape)), [1] + shape])
+        elif fn in ("stack", "eq2"):
+            same = [i for i, (_, s) in self.packs.items() if list(s) == list(shape)]
+            op.update(other=None if r.random() < 0.4 else r.choice(sorted(same)), dim=r.choice([0, -1, dim]), first=r.random() < 0.7)
+        elif fn == "permute":
+            perm = list(range(len(shape)))
+            r.shuffle(perm)
+            op["perm"] = perm
         elif fn == "cat":
             same = [i for i, (_, s) in self.packs.items() if s[1:] == shape[1:]]
             op.update(other=None if r.random() < 0.4 else r.choice(sorted(same)), dim=0, first=r.random() < 0.7)
